@@ -886,6 +886,25 @@ func Mutate(r *hx.Rng, b []byte, n int) [][]byte {
 
 // MutateDeep mutates a random descendant box in place (sizes of ancestors are kept consistent when the
 // mutant has the same length; otherwise the ancestors' size fields are patched).
+// TailMutants: the systematic end-of-body family, NOT random (a decoder that drops the read error of its last field, a string
+// terminator or a last entry cut off with a consistent header): the last 1..4 bytes cut with the size field adjusted, and the last
+// byte inverted.  Applied to one well-formed sample of every box type / generated kind.
+func TailMutants(b []byte) [][]byte {
+	size := len(b)
+	if size < 10 || binary.BigEndian.Uint32(b) != uint32(size) {
+		return nil
+	}
+	var out [][]byte
+	for k := 1; k <= 4 && size-k > 8; k++ {
+		m := append([]byte{}, b[:size-k]...)
+		binary.BigEndian.PutUint32(m, uint32(len(m)))
+		out = append(out, m)
+	}
+	m := append([]byte{}, b...)
+	m[size-1] ^= 0xff
+	return append(out, m)
+}
+
 func MutateDeep(r *hx.Rng, b []byte) []byte {
 	nodes, ok := Scan(b, 0, len(b), 0)
 	if !ok || len(nodes) == 0 {
